@@ -12,9 +12,13 @@ Two correspondence streams (harness/src/bin/c11.rs):
 import glob
 import json
 import os
+import shutil
 from lib import vf
 
-RULE = ("deterministic first: maps of 0..9 keys built by `new`, by `from_iter` and by inserts into the empty map, every "
+RULE = ("deterministic first: family `huge` - 65535, 65536, 65537 and 70000 distinct keys inserted in order with every 997th "
+        "overwritten afterwards, judged by summary facts (len, get_index of every 4096th and the last key, number of distinct "
+        "indices over ALL keys, iteration / keys() length and order, to_vec indices ascending, all values) against the closed "
+        "form the refinement theorems give (get_index (key j) = j); maps of 0..9 keys built by `new`, by `from_iter` and by inserts into the empty map, every "
         "position overwritten in turn (values compared afterwards), growth past the specialisations; then random "
         "op sequences (constructor empty/new/from_iter + up to 60 inserts over <=13 keys) with every observable "
         "(len, iter, keys, to_vec, get, get_index, get_pair) compared after every op; non-trivial = the key set "
@@ -25,7 +29,11 @@ RULE_STATE = (
     "sequence of 1-5 queries on it; each query = the features its traversal / access model contribute (stub "
     "services building the model of the query at hand), its state_features (parsed by the real code from serde JSON), "
     "0-8+ operations; every query's observables are compared with M / S computed for that query ALONE. "
-    "225 deterministic boundary cases first (query overrides in another unit than the model's with non-zero initial "
+    "240 deterministic boundary cases first (EVERY ordered pair of units of the three families (25 + 16 + 9) through "
+    "set / get in both units / add / round trip / 12-fold add, judged by the table factor at 2^-40 AND, for distance "
+    "and time, by the exact SI factor within 0.2 %; whole-number initial values spelled as JSON integer literals "
+    "(-5, 0, -0, 2^53, u64::MAX, i64::MIN), float literals and exponent forms - configuration and query JSON go "
+    "through serde_json TEXT whenever an initial value is a whole number; query overrides in another unit than the model's with non-zero initial "
     "values, read in both units; runs of 50 / 200 / 500 adds in a unit other than the feature's, zero and non-zero "
     "increments; a query overriding a model-contributed feature; overriding initial "
     "values of the 4 features of an electric-vehicle model; n = 0..7 configured + k = 0..3 model features with and "
@@ -71,7 +79,7 @@ def replay_stream(chk):
         return None
     st = v.get("stream") or ""
     if st.startswith("corpus:"):
-        return "state"
+        return "cmap" if "huge" in v.get("case", {}) else "state"
     if st in ("cmap", "state"):
         return st
     return "state" if "cfg" in v.get("case", {}) else "cmap"
@@ -110,6 +118,15 @@ def run(chk):
         chk.violation("broken-correspondence", "translator", {"translator": "tr_units", "error": tres.get("msg")},
                       tres.get("msg"), "the unit sources have the shape the translator knows",
                       detail="coq/Gen/UnitTables.v could not be regenerated (see property C09)", found=False, key="translator")
+        # keep going with the last table that WAS read from a source the translator understands (the one of the main
+        # tree): the model still runs and the streams below search for the concrete failing input (the judgement of
+        # set / get / add in another unit also uses the exact SI factors, not the table)
+        dst = os.path.join(vf.COQ, "Gen", "UnitTables.v")
+        src = os.path.join(vf.ROOT, "coq", "Gen", "UnitTables.v")
+        if not os.path.exists(dst) and os.path.exists(src):
+            os.makedirs(os.path.dirname(dst), exist_ok=True)
+            shutil.copy(src, dst)
+            chk.coverage["translator_units"]["fallback"] = "last good UnitTables.v of the main tree"
     # Gen/StateFeature.v: the variants of StateFeature / CustomFeatureFormat / UpdateOperation and the arms of their encode / decode /
     # initial / equality / unit accessors are regenerated from the Rust source; Props/GenStateFeature.v proves Model/StateModel.v
     # equal to them for all inputs
@@ -135,8 +152,9 @@ def run(chk):
             # witnesses of the seeded defects and of the mutations tried, replayed first
             for f in sorted(glob.glob(os.path.join(vf.ROOT, "corpus", "C11", "*.json"))):
                 name = os.path.basename(f)[:-5]
-                rc = vf.run_stream(binp, "state", 1, chk.seed, os.path.join(chk.outdir, "corpus_" + name), shards=1, replay=f)
-                rc.name = "state"
+                cstream = "cmap" if "huge" in json.load(open(f)).get("case", {}) else "state"
+                rc = vf.run_stream(binp, cstream, 1, chk.seed, os.path.join(chk.outdir, "corpus_" + name), shards=1, replay=f)
+                rc.name = cstream
                 chk.coverage["streams"].setdefault("corpus", {"cases": 0, "rule": "corpus/C11/*.json replayed (full payloads)"})["cases"] += 1
                 vf.compare(chk, rc, classify=classify, binpath=binp, stream_label="corpus:" + name)
         n = 900 if quick else 40000
